@@ -3,7 +3,7 @@
 From Coq Require Import List NArith Bool Arith Lia.
 Import ListNotations.
 From JV Require Import Model.LexBase Model.LexTokeniter Spec.LexTrimSpec Proofs.LexInv Proofs.LexTrim
-  Proofs.LexSkelA Proofs.LexSkelB Proofs.LexSkelC Proofs.LexSkelD.
+  Proofs.LexSkelA Proofs.LexSkelB Proofs.LexSkelC Proofs.LexSkelD Proofs.LexSkelF.
 Open Scope N_scope.
 
 (* Non-whitespace text is never removed: the non-whitespace characters of the (normalised)
@@ -51,22 +51,53 @@ Theorem C12_trim_refines : forall trim_blocks lstrip_blocks sk,
 Proof. intros t l sk H. exact (trim_refines_default t l sk H). Qed.
 Print Assumptions C12_trim_refines.
 
+(* ... with newline_sequence and keep_trailing_newline as parameters: the output is spec_trim_k
+   (spec_trim, or the same without the removal of the template's final line break when
+   keep_trailing_newline is set) with every line break replaced by newline_sequence. *)
+Theorem C12_trim_refines_general : forall trim_blocks lstrip_blocks keep nlseq sk,
+  skel_wf (txt_of 123) sk = true ->
+  render_data (cfg_default trim_blocks lstrip_blocks keep nlseq)
+              (unparse (cfg_default trim_blocks lstrip_blocks keep nlseq) sk)
+  = Some (nl_subst nlseq (spec_trim_k keep trim_blocks lstrip_blocks sk)).
+Proof. intros t l k seq sk H. exact (trim_refines_default_gen t l k seq sk H). Qed.
+Print Assumptions C12_trim_refines_general.
+
+(* ... and with CR / CRLF / LF line breaks in the texts and raw bodies (all strings without '{'):
+   the output is that of the skeleton whose texts have their line breaks unified ([normsk]). *)
+Theorem C12_trim_refines_cr : forall trim_blocks lstrip_blocks keep nlseq sk,
+  skel_wf (with_cr (txt_of 123)) sk = true ->
+  render_data (cfg_default trim_blocks lstrip_blocks keep nlseq)
+              (unparse (cfg_default trim_blocks lstrip_blocks keep nlseq) sk)
+  = Some (nl_subst nlseq (spec_trim_k keep trim_blocks lstrip_blocks (normsk sk))).
+Proof.
+  intros t l k seq sk H.
+  exact (skel_render_cr (cfg_default t l k seq) (txt_of 123) (skel_cfg_default t l k seq) eq_refl sk H).
+Qed.
+Print Assumptions C12_trim_refines_cr.
+
 (* The same for every configuration whose delimiters satisfy the bundle of local facts
    [skel_cfg] (start strings recognised at a tag start, delimiter-free text characters, end
-   strings not starting with a sign or ending in a line break, tag bodies lexed to their end) ... *)
+   strings not starting with '+', not mistakable for '-' followed by themselves and not ending in a
+   line break, tag bodies lexed to their end) ... *)
 Theorem C12_trim_refines_cfg : forall c txt sk,
   skel_cfg c txt -> skel_wf txt sk = true ->
-  render_data c (unparse c sk) = Some (spec_trim (c_trim c) (c_lstrip c) [] sk).
+  render_data c (unparse c sk)
+  = Some (nl_subst (c_nlseq c) (spec_trim_k (c_keep c) (c_trim c) (c_lstrip c) sk)).
 Proof. intros c txt sk H Hw. exact (skel_render_cfg c txt H sk Hw). Qed.
 Print Assumptions C12_trim_refines_cfg.
 
-(* ... which holds for  <% %> <%= %> <%# #%>  (block start a prefix of both other start strings)
-   and  $% %$ ${ } $# #$  (shared first character), all four settings *)
-Theorem C12_trim_refines_families : forall t l,
-  skel_cfg (cfg_default t l false [10]) (txt_of 123) /\
-  skel_cfg (cfg_asp t l false [10]) (txt_of 60) /\
-  skel_cfg (cfg_dollar t l false [10]) (txt_of 36).
-Proof. intros t l. exact (conj (skel_cfg_default t l) (conj (skel_cfg_asp t l) (skel_cfg_dollar t l))). Qed.
+(* ... which holds for  <% %> <%= %> <%# #%>  (block start a prefix of both other start strings),
+   <% %> <%= %> <!-- -->  (comment end string starting with '-') and  $% %$ ${ } $# #$  (shared
+   first character), all trim / lstrip / keep settings and newline sequences *)
+Theorem C12_trim_refines_families : forall t l k seq,
+  skel_cfg (cfg_default t l k seq) (txt_of 123) /\
+  skel_cfg (cfg_asp t l k seq) (txt_of 60) /\
+  skel_cfg (cfg_angle t l k seq) (txt_of 60) /\
+  skel_cfg (cfg_dollar t l k seq) (txt_of 36).
+Proof.
+  intros t l k seq.
+  exact (conj (skel_cfg_default t l k seq) (conj (skel_cfg_asp t l k seq) (conj (skel_cfg_angle t l k seq) (skel_cfg_dollar t l k seq)))).
+Qed.
 Print Assumptions C12_trim_refines_families.
 
 (* The interplay of the two sides of a text, every text: applying the previous tag's right rule
